@@ -203,7 +203,14 @@ class MultiDecoder(ContentDecoder):
         self._decoders = [_get_decoder(m.strip()) for m in modes.split(",")]
 
     def flush(self) -> bytes:
-        return self._decoders[0].flush()
+        # Flush every decoder, from the coding applied last inwards, feeding
+        # whatever a decoder still holds to the ones after it.
+        data = b""
+        for d in reversed(self._decoders):
+            if data:
+                data = d.decompress(data)
+            data += d.flush()
+        return data
 
     def decompress(self, data: bytes) -> bytes:
         for d in reversed(self._decoders):
